@@ -93,16 +93,11 @@ def getLatLon (lat lonEven lonOdd : α) (latestOdd : Bool) : α × α :=
   let lon := if leb (nOf 180) lon then lon - nOf 360 else lon
   (lat, lon)
 
-/-- `get_position((a, b))`: `b` is the latest report -/
-def getPosition (a b : Alt) : Option (Position α) :=
-  if a.f = b.f then none else
-  let even := if a.f = 0 then a else b
-  let odd := if a.f = 0 then b else a
+/-- the two candidate latitudes of `get_position` (even grid, odd grid) after the southern-hemisphere wrap -/
+def latPair (ye yo : Nat) : α × α :=
   let cprMax : α := nOf Gen.cprMax
-  let latE : α := nOf even.lat / cprMax
-  let lonE : α := nOf even.lon / cprMax
-  let latO : α := nOf odd.lat / cprMax
-  let lonO : α := nOf odd.lon / cprMax
+  let latE : α := nOf ye / cprMax
+  let latO : α := nOf yo / cprMax
   let j := NumOps.floor (nOf 59 * latE - nOf 60 * latO + NumOps.half)
   let dE : α := nOf 360 / nOf (4 * Gen.nz)
   let dO : α := nOf 360 / nOf (4 * Gen.nz - 1)
@@ -110,14 +105,26 @@ def getPosition (a b : Alt) : Option (Position α) :=
   let lo := dO * (pmod j (nOf 59) + latO)
   let le := if leb (nOf 270) le then le - nOf 360 else le
   let lo := if leb (nOf 270) lo then lo - nOf 360 else lo
-  let inRange (x : α) : Bool := leb (negOf (nOf 90)) x && leb x (nOf 90)
-  if !(inRange le && inRange lo) then none
-  else if cprNl le != cprNl lo then none
+  (le, lo)
+
+def inRange (x : α) : Bool := leb (negOf (nOf 90)) x && leb x (nOf 90)
+
+/-- `get_position((a, b))`: `b` is the latest report -/
+def getPosition (a b : Alt) : Option (Position α) :=
+  if a.f = b.f then none else
+  let even := if a.f = 0 then a else b
+  let odd := if a.f = 0 then b else a
+  let cprMax : α := nOf Gen.cprMax
+  let lonE : α := nOf even.lon / cprMax
+  let lonO : α := nOf odd.lon / cprMax
+  let ll : α × α := latPair even.lat odd.lat
+  if !(inRange ll.1 && inRange ll.2) then none
+  else if cprNl ll.1 != cprNl ll.2 then none
   else
     let latestOdd := b.f != 0
-    let lat := if latestOdd then lo else le
-    let (lat, lon) := getLatLon lat lonE lonO latestOdd
-    some { lat := lat, lon := lon }
+    let lat := if latestOdd then ll.2 else ll.1
+    let r := getLatLon lat lonE lonO latestOdd
+    some { lat := r.1, lon := r.2 }
 
 end
 end Adsb
